@@ -70,6 +70,12 @@ def enumerate_cases(tier, seed):
   for cls in ("Conv2D", "QConv2D", "QConv2DBatchnorm"):
     for g in common.dev_product(CONV2D_AXES, k):
       out.append(dict(sub="a", cls=cls, g=g))
+  # transposed convolutions share the Conv2D branch of the counter but store their kernel as (kh, kw, c_out, c_in); stride 1
+  # only (with a stride the count of "useful" multiplications is a matter of convention)
+  for cls in ("Conv2DTranspose",):        # (QConv2DTranspose cannot be called in this image)
+    for g in common.dev_product(CONV2D_AXES, k):
+      if g["sh"] == 1 and g["sw"] == 1 and g["dil"] == 1 and g["groups"] == 1:
+        out.append(dict(sub="a", cls=cls, g=g))
   for cls in ("Conv1D", "QConv1D"):
     for g in common.dev_product(CONV1D_AXES, k):
       out.append(dict(sub="a", cls=cls, g=g))
@@ -108,6 +114,16 @@ def ref_macs(cls, g):
       for _ in range(g["n_out"]):
         c += 1
     return c, (g["n_out"],)
+  if "Conv2DTranspose" in cls:
+    oh = g["H"] if g["padding"] == "same" else g["H"] + g["kh"] - 1
+    ow = g["W"] if g["padding"] == "same" else g["W"] + g["kw"] - 1
+    c = 0
+    for _ in range(oh):
+      for _ in range(ow):
+        for _ in range(g["kh"]):
+          for _ in range(g["kw"]):
+            c += g["cin"] * g["cout"]
+    return c, (oh, ow, g["cout"])
   if "Conv2D" in cls and "Depthwise" not in cls:
     if g["cin"] % g["groups"] or g["cout"] % g["groups"]:
       return None
@@ -189,6 +205,10 @@ def build_layer(cls, g):
       if g["groups"] != 1:
         return None, None
       layer = qkeras.QConv2DBatchnorm(kernel_quantizer=qb, bias_quantizer=qb, **kw)
+  elif cls in ("Conv2DTranspose", "QConv2DTranspose"):
+    shape = (None, g["H"], g["W"], g["cin"])
+    kw = dict(filters=g["cout"], kernel_size=(g["kh"], g["kw"]), strides=(1, 1), padding=g["padding"])
+    layer = L.Conv2DTranspose(**kw) if cls == "Conv2DTranspose" else qkeras.QConv2DTranspose(kernel_quantizer=qb, bias_quantizer=qb, **kw)
   elif cls in ("Conv1D", "QConv1D"):
     shape = (None, g["T"], g["cin"])
     kw = dict(filters=g["cout"], kernel_size=g["k"], strides=g["s"], padding=g["padding"], dilation_rate=g["dil"])
